@@ -46,6 +46,7 @@ package livesql
 //@ nonnil livesql.LiveDB.DB         // NewLiveDB always wraps a *sqlgen.DB
 //@ nonnil livesql.LiveDB.tracker    // NewLiveDB always allocates the tracker
 //@ nonnil sqlgen.DB.Schema          // a DB is constructed around its schema
+//@ nonnil elem *sqlgen.Column       // a table's columns are built by the schema registration, one allocated Column each
 //@ func LiveDB.query$1
 //@   keeps sqlgen.BaseSelectQuery, sqlgen.Table, LiveDB, sqlgen.DB     // building the tester and registering the dependency do not rewrite the query, the table descriptor or the handle
 //@   ghost registered bool
@@ -124,6 +125,10 @@ package livesql
 //@   assume table != nil
 //@   ensures err == nil ==> result != nil && len(result.source) == len(table.Columns)
 //@   loop 2 invariant -1 <= rangeindex && rangeindex < len(table.Columns) && columnMap != nil && fresh(columnMap) && len(columnMap.source) == rangeindex+1
+// ... and entry k is the position of struct column k in the TABLE (the ordinal the column query reported for its name), or -1
+// when the table has no such column - never the column's position in the struct
+//@   call mapupdate assert arg1 == columns[rangeindex+1] && arg2 == rangeindex+1
+//@   loop 2 invariant forall k int :: 0 <= k && k <= rangeindex ==> columnMap.source[k] == ite(table.Columns[k].Name in columnIndex, columnIndex[table.Columns[k].Name], 0 - 1)
 
 // registerDependency: the resource the computation is made to depend on is the one that goes into the tracker, carrying this
 // query's table and tester; its cleanup takes exactly that entry out of the tracker again. Each step happens once.
